@@ -8,6 +8,7 @@ package main
 
 import (
 	"fmt"
+	"github.com/ethereum/go-ethereum/crypto"
 	"math/big"
 
 	"cosmossdk.io/math"
@@ -75,6 +76,8 @@ func c12Run(r *Run, start, preamble string) {
 	flows := func() []c12Flow {
 		in1 := InboundPlain(DomEth, 100, []byte("hi"), nil)
 		in2 := InboundBurn(DomEth, 101, big.NewInt(42), pad32(UserB.Addr), nil)
+		burnLike := RefBurn(0, crypto.Keccak256([]byte("uusdc")), pad32(UserB.Addr), big.NewInt(5), pad32(UserA.Addr))
+		in5 := InboundPlain(DomEth, 103, burnLike, nil)
 		fl := []c12Flow{
 			{"send", false, func() Action { return MkSend(UserA.Str, DomEth, distinct32(0x21), []byte("body")) }},
 			{"sendWithCaller", false, func() Action {
@@ -84,6 +87,15 @@ func c12Run(r *Run, start, preamble string) {
 				return MkReplaceMessage(UserA.Str, origSend, attSend, []byte("new body"), distinct32(0x23), "own send")
 			}},
 			{"receive-plain", false, func() Action { return MkReceive(UserB.Str, in1, Attest(in1, signers), "plain(0,100)") }},
+			// plain messages whose body happens to be shaped like a burn message (132 bytes, well-formed): still not a burn or mint
+			{"send-burnlike-body", false, func() Action { return MkSend(UserA.Str, DomEth, distinct32(0x21), burnLike) }},
+			{"sendWithCaller-burnlike-body", false, func() Action {
+				return MkSendWithCaller(UserA.Str, DomAvax, distinct32(0x21), burnLike, distinct32(0x22))
+			}},
+			{"replaceMessage-burnlike-body", false, func() Action {
+				return MkReplaceMessage(UserA.Str, origSend, attSend, burnLike, distinct32(0x23), "own send, 132-byte body")
+			}},
+			{"receive-plain-burnlike-body", false, func() Action { return MkReceive(UserB.Str, in5, Attest(in5, signers), "plain(0,103) 132-byte body") }},
 			{"deposit", true, func() Action { return MkDeposit(UserA.Str, math.NewInt(7), DomEth, distinct32(0x24), "uusdc") }},
 			{"depositWithCaller", true, func() Action {
 				return MkDepositWithCaller(UserA.Str, math.NewInt(7), DomAvax, distinct32(0x24), "uusdc", distinct32(0x25))
